@@ -100,7 +100,7 @@ func buildUniverse(c c07Case) (*universe, runOut) {
 		}
 	}
 	var out runOut
-	cfg := world.Config{Dir: dir, Seg: c.Seg, Workers: 1, Final: c.Run.Final, Steps: world.LinearChain(c.Head)}
+	cfg := world.Config{Dir: dir, Seg: c.Seg, Workers: 1, Final: c.Run.Final, Steps: chainFor(c.Run, c.Head)} // the same chain as the subset runs (non-final tail included)
 	cfg.AfterJob = func(stage.Unit) { harvest() }
 	out.res = world.Run(c.Prog.Modules(), world.Request{Prod: c.Run.Prod, Start: int64(c.Run.Start), Stop: c.Run.Stop, Output: c.Run.Output}, cfg)
 	harvest()
